@@ -52,11 +52,18 @@ class Thread(threading.Thread):
         # This method should not raise exceptions.
         print(f'Exception in {threading.current_thread().name}: {repr(exc)}')
 
+    def start(self):
+        # Create the future before the thread starts, so that `wait` and `as_completed`
+        # can be used as soon as `start` returns (`run` may not have begun by then).
+        self._future_ = concurrent.futures.Future()
+        super().start()
+
     def run(self):
         """
         This method represents the thread's activity.
         """
-        self._future_ = concurrent.futures.Future()
+        if self._future_ is None:
+            self._future_ = concurrent.futures.Future()
         try:
             if self._target is not None:
                 z = self._target(*self._args, **self._kwargs)
